@@ -1,0 +1,170 @@
+//! Instrumented stand-in for `std::sync::RwLock`, compiled only with
+//! `--cfg cfb_verif` (verification builds).  It wraps the real
+//! `std::sync::RwLock` one-to-one and reports every acquisition to a
+//! process-global observer: which lock, read or write, and whether the guard
+//! was requested, granted or released, together with the call site.  With the
+//! cfg off this module is not compiled and the crate uses `std::sync`
+//! directly.
+
+use std::ops::{Deref, DerefMut};
+use std::panic::Location;
+use std::sync::{self, LockResult, OnceLock, PoisonError};
+
+/// Whether a shared or an exclusive guard is concerned.
+#[derive(Clone, Copy, Debug, Eq, PartialEq)]
+pub enum LockKind {
+    /// `read()`
+    Read,
+    /// `write()`
+    Write,
+}
+
+/// The step of an acquisition that is being reported.
+#[derive(Clone, Copy, Debug, Eq, PartialEq)]
+pub enum LockPhase {
+    /// The thread is about to block on the lock.
+    Request,
+    /// The thread has obtained the guard.
+    Granted,
+    /// The guard has been dropped.
+    Released,
+}
+
+/// One report to the observer.
+#[derive(Clone, Copy, Debug)]
+pub struct LockEvent {
+    /// Identity of the lock (its address).
+    pub lock_id: usize,
+    /// Read or write.
+    pub kind: LockKind,
+    /// Request, granted or released.
+    pub phase: LockPhase,
+    /// Call site of the `read()` / `write()` call.
+    pub site: &'static Location<'static>,
+}
+
+type Observer = Box<dyn Fn(&LockEvent) + Send + Sync>;
+
+static OBSERVER: OnceLock<Observer> = OnceLock::new();
+
+/// Installs the process-global observer (once).  The observer runs on the
+/// acquiring thread, outside any critical section of the observed lock for
+/// `Request` and `Released`, so it may delay the thread.
+pub fn set_lock_observer(observer: Observer) -> bool {
+    OBSERVER.set(observer).is_ok()
+}
+
+fn emit(lock_id: usize, kind: LockKind, phase: LockPhase, site: &'static Location<'static>) {
+    if let Some(observer) = OBSERVER.get() {
+        observer(&LockEvent { lock_id, kind, phase, site });
+    }
+}
+
+/// See the module documentation.
+pub struct RwLock<T> {
+    inner: sync::RwLock<T>,
+}
+
+impl<T> RwLock<T> {
+    /// Like `std::sync::RwLock::new`.
+    pub fn new(value: T) -> RwLock<T> {
+        RwLock { inner: sync::RwLock::new(value) }
+    }
+
+    fn id(&self) -> usize {
+        self as *const RwLock<T> as usize
+    }
+
+    /// Like `std::sync::RwLock::read`.
+    #[track_caller]
+    pub fn read(&self) -> LockResult<RwLockReadGuard<'_, T>> {
+        let site = Location::caller();
+        let lock_id = self.id();
+        emit(lock_id, LockKind::Read, LockPhase::Request, site);
+        let result = self.inner.read();
+        emit(lock_id, LockKind::Read, LockPhase::Granted, site);
+        match result {
+            Ok(guard) => {
+                Ok(RwLockReadGuard { guard: Some(guard), lock_id, site })
+            }
+            Err(poisoned) => Err(PoisonError::new(RwLockReadGuard {
+                guard: Some(poisoned.into_inner()),
+                lock_id,
+                site,
+            })),
+        }
+    }
+
+    /// Like `std::sync::RwLock::write`.
+    #[track_caller]
+    pub fn write(&self) -> LockResult<RwLockWriteGuard<'_, T>> {
+        let site = Location::caller();
+        let lock_id = self.id();
+        emit(lock_id, LockKind::Write, LockPhase::Request, site);
+        let result = self.inner.write();
+        emit(lock_id, LockKind::Write, LockPhase::Granted, site);
+        match result {
+            Ok(guard) => {
+                Ok(RwLockWriteGuard { guard: Some(guard), lock_id, site })
+            }
+            Err(poisoned) => Err(PoisonError::new(RwLockWriteGuard {
+                guard: Some(poisoned.into_inner()),
+                lock_id,
+                site,
+            })),
+        }
+    }
+
+    /// Like `std::sync::RwLock::into_inner`.
+    pub fn into_inner(self) -> LockResult<T> {
+        self.inner.into_inner()
+    }
+}
+
+/// Like `std::sync::RwLockReadGuard`.
+pub struct RwLockReadGuard<'a, T> {
+    guard: Option<sync::RwLockReadGuard<'a, T>>,
+    lock_id: usize,
+    site: &'static Location<'static>,
+}
+
+impl<T> Deref for RwLockReadGuard<'_, T> {
+    type Target = T;
+    fn deref(&self) -> &T {
+        self.guard.as_ref().unwrap()
+    }
+}
+
+impl<T> Drop for RwLockReadGuard<'_, T> {
+    fn drop(&mut self) {
+        drop(self.guard.take());
+        emit(self.lock_id, LockKind::Read, LockPhase::Released, self.site);
+    }
+}
+
+/// Like `std::sync::RwLockWriteGuard`.
+pub struct RwLockWriteGuard<'a, T> {
+    guard: Option<sync::RwLockWriteGuard<'a, T>>,
+    lock_id: usize,
+    site: &'static Location<'static>,
+}
+
+impl<T> Deref for RwLockWriteGuard<'_, T> {
+    type Target = T;
+    fn deref(&self) -> &T {
+        self.guard.as_ref().unwrap()
+    }
+}
+
+impl<T> DerefMut for RwLockWriteGuard<'_, T> {
+    fn deref_mut(&mut self) -> &mut T {
+        self.guard.as_mut().unwrap()
+    }
+}
+
+impl<T> Drop for RwLockWriteGuard<'_, T> {
+    fn drop(&mut self) {
+        drop(self.guard.take());
+        emit(self.lock_id, LockKind::Write, LockPhase::Released, self.site);
+    }
+}
